@@ -19,15 +19,19 @@ theorem nrun_nil_state (H : Bytes → Bytes) (ops : List Op) : (nrun H .nil ops)
 theorem lrun_sim {H : Bytes → Bytes} (hok : HashOK H) (F : Nat) (ops : List Op) :
     ∀ (lt : LTrie) (t : Node), Sim H lt t →
       (∀ pre, pre <+: ops → 2 * height (pre.foldl applyOp t) + 2 ≤ F) →
+      (∀ pre, pre <+: ops → (enc H (pre.foldl applyOp t)).length < 256 ^ 8) →
       (lrun H F lt ops).2 = (nrun H t ops).2 ∧ Sim H (lrun H F lt ops).1 (nrun H t ops).1 := by
   induction ops with
-  | nil => intro lt t h _; exact ⟨rfl, h⟩
+  | nil => intro lt t h _ _; exact ⟨rfl, h⟩
   | cons op ops ih =>
-    intro lt t h hF
-    obtain ⟨ho, hs⟩ := sim_step hok F h (by simpa using hF [] List.nil_prefix) op
+    intro lt t h hF hS
+    obtain ⟨ho, hs⟩ := sim_step hok F h (by simpa using hF [] List.nil_prefix)
+      (by simpa using hS [] List.nil_prefix) op
     have hst : (nstep H t op).1 = applyOp t op := by cases op <;> rfl
     obtain ⟨ro, rs⟩ := ih _ _ hs (fun pre hp => by
       have := hF (op :: pre) (by simpa [List.cons_prefix_cons] using hp)
+      simpa [hst] using this) (fun pre hp => by
+      have := hS (op :: pre) (by simpa [List.cons_prefix_cons] using hp)
       simpa [hst] using this)
     simp only [lrun, nrun]
     exact ⟨by rw [ho, ro], rs⟩
